@@ -108,7 +108,14 @@ static std::string jesc(const std::string &s) {
 }
 
 // ------------------------------------------------------------------ Ctx (child side)
+Ctx::Inproc &Ctx::inproc() { static Inproc i; return i; }
 void Ctx::send(const std::string &line) {
+    if (inproc().active) {
+        if (line.size() > 2 && line[0] == 'L') inproc().labels.push_back(line.substr(2));
+        else if (line == "N") inproc().nontrivial = true;
+        else if (line.size() > 2 && line[0] == 'E') inproc().evals = atol(line.c_str() + 2);
+        return;
+    }
     std::string l = line;
     for (auto &ch : l) if (ch == '\n') ch = ' ';
     l.push_back('\n');
@@ -134,10 +141,12 @@ void Ctx::progress(const std::string &sub) {
     progress_[n] = 0;
 }
 void Ctx::fail(const std::string &kind, const std::string &detail) {
+    if (inproc().active) { inproc().done = true; inproc().kind = kind; inproc().detail = detail; inproc().step = step_; throw CaseEnd(); }
     send("V " + kind + " " + std::to_string(step_) + " " + detail);
     _exit(0);
 }
 void Ctx::ok() {
+    if (inproc().active) { inproc().done = true; inproc().kind = "ok"; throw CaseEnd(); }
     send("V ok -1");
     _exit(0);
 }
@@ -356,9 +365,15 @@ Result execute(Harness &h, const Case &c) {
     return res;
 }
 
+static void write_file(const std::string &path, const std::string &data);
 static bool try_case(const Case &c) {
-    Result r = execute(*g_h, c);
     std::string text = case_to_text(c);
+    if (config().kv.count("dumpdir") && g_stats.cases < atol(config().kv.count("dumpmax") ? config().kv["dumpmax"].c_str() : "1000")) {
+        char nm[64];
+        snprintf(nm, sizeof nm, "/gen-%016llx.case", (unsigned long long)fnv64(text));
+        write_file(config().kv["dumpdir"] + nm, text);
+    }
+    Result r = execute(*g_h, c);
     g_stats.cases++;
     g_stats.evaluations += r.evals;
     for (auto &l : r.labels) g_stats.labels[l]++;
@@ -521,4 +536,3 @@ int engine_main(int argc, char **argv) {
 
 }  // namespace vt
 
-int main(int argc, char **argv) { return vt::engine_main(argc, argv); }
